@@ -785,7 +785,10 @@ impl<'a> Gen<'a> {
             2 if self.budget > 0 => {
                 self.scope.push(VarInfo { name: it.clone(), shape: shape.clone() });
                 self.iters.push(it.clone());
+                // the call must not write to the stream being folded (unbounded recursion)
+                self.folding.push(s.clone());
                 let c = self.gen_call(Ctx { guard: false, ..ctx }, Some("f"));
+                self.folding.pop();
                 self.iters.pop();
                 self.scope.truncate(mark);
                 Some(Box::new(c))
